@@ -6,7 +6,9 @@
 (*  "contig":name,"ref":[letters of the whole contig as written to the FASTA file],               *)
 (*  "strand":0|1|-1 (as reported by the molecule), "raised":"" | exception type,                  *)
 (*  "pre":"" | name of an input class outside the quantifier, "refobj":"fasta|cached",            *)
-(*  "history":"once|incremental|requery",                                                         *)
+(*  "history":"once|incremental|requery", "post":"none|write_tags|pseudo" (what was done after      *)
+(*  __finalise__: Molecule.write_tags(), or write_tags_to_psuedoreads() on tag-less copies of the  *)
+(*  reads - then XM/tot are those of the copies), "post_raised":"" | exception type,               *)
 (*  "frags":[{"reads":[{"mate":1|2,"rev":bool,"start":int,"cigar":[[op,len]..],"seq":[..],       *)
 (*                      "qual":[..],"has_xm":bool,"xm":[..],"tot":{"MC":..,"uC":..,...}}]}],      *)
 (*  "calls":[{"contig":name,"p":pos,"letter":"z|Z|x|X|h|H|.","cons":base}]}                       *)
@@ -48,7 +50,21 @@ MolVerdict(e) ==
     ELSE IF \E r \in SeqSet(ReadsOf(e)) : ~r.has_xm THEN "Inv_C14_XMLen_no_call_string"
     ELSE T!MolClause(e.ref, e.conv, AbsFrags(e), CallsOf(e), Tagged(e))
 
+(* TAPS.position_to_context called directly with the true reference base of the position as ref_base:             *)
+(* {"ev":"ctx","tid":n,"contig","ref":[..],"p":pos,"obs":observed base (either case),"symbol":returned letter,"raised"} *)
+(* a C or G is a potential target of some strand/convention: the letter must be one ExpLetters allows for that base;    *)
+(* any other reference base is not a target: no letter                                                                  *)
+CtxVerdict(e) ==
+    LET rb  == T!RefAt(e.ref, e.p)
+        exp == T!ExpLetters(e.ref, e.p, rb, T!Upper(e.obs))
+    IN IF e.raised # "" THEN "Raised_" \o e.raised
+       ELSE IF rb \notin {"C", "G"} THEN (IF e.symbol = "." THEN "ok" ELSE "Inv_C14_OnTarget")
+       ELSE IF e.symbol \in exp THEN "ok"
+       ELSE IF T!Low(e.symbol) \in { T!Low(x) : x \in exp } THEN "Inv_C14_Case"
+       ELSE "Inv_C14_Letter"
+
 Verdict(e) == CASE e.ev = "mol" -> MolVerdict(e)
+                [] e.ev = "ctx" -> CtxVerdict(e)
                 [] OTHER -> "unknown_event"
 
 (* informational observations (never rejects) *)
@@ -69,11 +85,13 @@ Observe(line, e) ==
                           \E k \in DOMAIN rs[i].xm : rs[i].xm[k] # (IF rs[i].al[k].p \in DOMAIN cl THEN cl[rs[i].al[k].p] ELSE ".")
              strandfield == e.strand # (IF T!MolRev(fr) THEN 1 ELSE 0)
              consfield == \E i \in DOMAIN e.calls : e.calls[i].cons # T!ConsAt(fr, e.calls[i].p)
-         IN /\ (IF missing # {} THEN Note(line, e.tid, "divergence_missing_call") ELSE TRUE)
+         IN /\ (IF e.post_raised # "" THEN Note(line, e.tid, "post_step_" \o e.post \o "_raises_" \o e.post_raised) ELSE TRUE)
+            /\ (IF missing # {} THEN Note(line, e.tid, "divergence_missing_call") ELSE TRUE)
             /\ (IF trunc # {} THEN Note(line, e.tid, "truncated_or_nonACGT_context") ELSE TRUE)
             /\ (IF cgend # {} THEN Note(line, e.tid, "CpG_with_incomplete_third_base_not_called") ELSE TRUE)
             /\ (IF xmdiff THEN Note(line, e.tid, "divergence_xm_differs_from_molecule_calls") ELSE TRUE)
-            /\ (IF strandfield THEN Note(line, e.tid, "divergence_molecule_strand_field") ELSE TRUE)
+            /\ (IF strandfield THEN Note(line, e.tid, IF e.strand = -1 THEN "molecule_strand_undetermined_by_the_code"
+                                                       ELSE "divergence_molecule_strand_field") ELSE TRUE)
             /\ (IF consfield THEN Note(line, e.tid, "divergence_consensus_field_of_call_differs_from_plurality") ELSE TRUE)
 
 TInit == l = 1
